@@ -70,7 +70,25 @@ pub fn as_string_literal_content(text: &str) -> String {
 /// of it (and the yaserde derive macros recognise `Option`, `Vec` and `String` by their spelling).
 const RESERVED_TYPE_NAMES: [&str; 6] = ["Self", "Option", "Vec", "String", "Default", "Rc"];
 
+/// What case conversion leaves of an XML name is not always a Rust identifier: `_` becomes nothing, `_1` becomes `1`,
+/// and XML allows characters in names (the subscript in `H₂O`) that Rust does not. Such characters become `_`, and
+/// a name that does not start like an identifier gets a `_` in front.
+pub fn as_identifier(converted_name: &str) -> String {
+    let mut identifier: String = converted_name
+        .chars()
+        .map(|c| if unicode_ident::is_xid_continue(c) { c } else { '_' })
+        .collect();
+    if !identifier.starts_with(|c| c == '_' || unicode_ident::is_xid_start(c)) {
+        identifier.insert(0, '_');
+    }
+    if identifier == "_" {
+        // an underscore alone is a pattern, not a name
+        identifier.push('_');
+    }
+    identifier
+}
+
 pub fn xml_name_to_rust_name(xml_name: &str) -> String {
-    let rust_name = to_pascal_case(xml_name);
+    let rust_name = as_identifier(&to_pascal_case(xml_name));
     if RESERVED_TYPE_NAMES.contains(&rust_name.as_str()) { format!("{rust_name}_") } else { rust_name }
 }
